@@ -1,4 +1,5 @@
 import Model.Random
+import Proofs.Reshape
 
 /-!
 # C18 — the random generator stays in range and shuffling is a safe permutation
@@ -131,6 +132,34 @@ theorem fill_shape_and_range (seed : Nat) (lo hi : α) (n : Nat)
     ∃ vs, fill (create seed) lo hi n = .ok vs ∧ vs.length = n ∧ ∀ v ∈ vs, lt v lo = false ∧ lt hi v = false := by
   obtain ⟨g', vs, e, _, l, r⟩ := generateN_in_range lo hi irr h n (create seed) (create_lt seed)
   exact ⟨vs, by simp [fill, e], l, r⟩
+
+/-- **a randomly initialised rank-3 tensor has the requested shape**: recorded shape `c × h × w`, `c`
+    matrices of `h` rows of `w` entries, `c·h·w` entries in all, every one of them in `[lo, hi]` -/
+theorem randomTensor_triple (seed : Nat) (lo hi : α) (c h w : Nat)
+    (irr : ∀ a : α, lt a a = false) (hlo : lt hi lo = false) :
+    ∃ t, randomTensor (create seed) (.triple c h w) lo hi = .ok ⟨.triple c h w, .triple t⟩ ∧
+      L.Dims3 t c h w ∧ (L.flatten3 t).length = c * h * w ∧
+      ∀ v ∈ L.flatten3 t, lt v lo = false ∧ lt hi v = false := by
+  obtain ⟨vs, hf, hl, hr⟩ := fill_shape_and_range seed lo hi (c * h * w) irr hlo
+  obtain ⟨t, ht, hd, hflat⟩ := L.toTriple_exact c h w vs hl
+  refine ⟨t, ?_, hd, by rw [hflat, hl], by rw [hflat]; exact hr⟩
+  unfold L.toTriple at ht
+  cases hm : L.takeMats h w c vs with
+  | error e => rw [hm] at ht; simp at ht
+  | ok p =>
+    obtain ⟨ms, rest⟩ := p
+    rw [hm] at ht
+    simp only [Except.ok.injEq] at ht
+    subst ht
+    simp only [randomTensor, hf, hm]
+
+/-- rank 1: the requested number of entries, all in range -/
+theorem randomTensor_single (seed : Nat) (lo hi : α) (n : Nat)
+    (irr : ∀ a : α, lt a a = false) (hlo : lt hi lo = false) :
+    ∃ vs, randomTensor (create seed) (.single n) lo hi = .ok ⟨.single n, .single vs⟩ ∧ vs.length = n ∧
+      ∀ v ∈ vs, lt v lo = false ∧ lt hi v = false := by
+  obtain ⟨vs, hf, hl, hr⟩ := fill_shape_and_range seed lo hi n irr hlo
+  exact ⟨vs, by simp only [randomTensor, hf], hl, hr⟩
 
 /-! ### shuffle -/
 
